@@ -289,6 +289,17 @@ theorem bracketGam_reach (cdf : ℝ → ℝ) (p mu : ℝ) : ∀ (n : Nat) (x2 r 
     · have hr : x2 * 2 = r := by simpa using h
       rw [pow_succ]; nlinarith
 
+/-- …and when `p` lies above every value of the cdf the right bracketing loop never ends, whatever the fuel
+    (known finding `C10:mixture_invcdf:p-above-cdf-max`: a mixture whose coefficients sum to `1 − 2⁻⁵³`, `p = 1`) -/
+theorem bracketRight_never {cdf : ℝ → ℝ} {p x1 : ℝ} (h : ∀ x, cdf x < p) : ∀ (n : Nat) (x2 : ℝ), bracketRight cdf p x1 n x2 = none := by
+  intro n
+  induction n with
+  | zero => intro x2; rfl
+  | succ n ih => intro x2; simp only [bracketRight]; rw [if_pos (h _)]; exact ih _
+
+theorem invcdfRight_never {cdf : ℝ → ℝ} {p mu : ℝ} (h : ∀ x, cdf x < p) (fuel : Nat) : invcdfRight fuel cdf p mu = none := by
+  unfold invcdfRight; rw [bracketRight_never h]
+
 /-! ## fuel is only a bound: more of it never changes a result -/
 
 theorem bisect_fuel_mono (cdf : ℝ → ℝ) (p mu : ℝ) : ∀ (n m : Nat) (x1 x2 r : ℝ), n ≤ m →
